@@ -272,12 +272,21 @@ def run(tier):
 def replay(path):
     rp = json.load(open(path))["replay"]
     chk = core.Check("C19", "quick", "model_checking")
+    bindir = core.cargo_build(bins=["timearith"])
     if rp.get("mode") == "arith":
         l = rp["line"]
-        bad = judge_lines(chk, [K.to_judge_line(l)], "replay", par=1)
+        dur_op = l["op"] in ("add", "sub")
+        a = l["a"]
+        b = ["0", 0] if dur_op else l["b"]
+        d = l["b"] if dur_op else ["0", 0]
+        p = core.run_cmd([os.path.join(bindir, "timearith"), "one", a[0], str(a[1]), b[0], str(b[1]), d[0], str(d[1])])
+        lines = [json.loads(x) for x in p.stdout.splitlines() if x.strip()]
+        lines = [x for x in lines if x["op"] == l["op"] and x["ty"] == l["ty"] and x.get("via") == l.get("via")]
+        bad = judge_lines(chk, [K.to_judge_line(x) for x in lines], "replay", par=1)
         print("recorded call:", json.dumps(l))
-        print("verdict of TimeArithJudge on the recorded call:", "REJECTED" if bad else "accepted")
-        print("re-run: ./bin/check C19 quick (seed %d) regenerates the case" % chk.seed)
+        for i, x in enumerate(lines):
+            print("re-executed:  ", json.dumps(x), "->", "REJECTED by TimeArithJudge" if i in bad else "accepted")
         return 1 if bad else 0
+    print("clock traces depend on the scheduler and cannot be replayed deterministically; recorded rejection:")
     print(json.dumps(rp, indent=1))
     return 0
